@@ -131,11 +131,16 @@ def run(model: Model, rep: Report) -> None:
 
     # ---------------------------------------------------------------- R6
     r6 = rep.rule("C08-R6", "ORDER", "text boxes are numbered 0..n-1 in output order on every path that produces boxes", 3)
-    branch = next((n for n in walk_no_nested(an.node) if isinstance(n, ast.If) and unparse(n.test).replace(" ", "") == "laparams.boxes_flowisNone"), None)
+    branch = next((n for n in walk_no_nested(an.node) if isinstance(n, ast.If) and n.orelse and any(isinstance(x, ast.Attribute) and x.attr == "boxes_flow" for x in ast.walk(n.test))), None)
     if branch is None:
-        raise AnchorMissing("analyze: `if laparams.boxes_flow is None` not found")
+        raise AnchorMissing("analyze: the branch on laparams.boxes_flow was not found")
+    # which arm is the grouped one is decided by what it does, not by how the test is spelled (C09-R5 decides the test)
+    arms = [branch.body, branch.orelse]
+    grouped = [a for a in arms if "group_textboxes" in unparse(ast.Module(body=a, type_ignores=[]))]
+    if len(grouped) != 1:
+        raise AnchorMissing("analyze: exactly one arm of the boxes_flow branch should call group_textboxes")
     # flat path: sort, then enumerate -> .index
-    b = branch.body
+    b = arms[1] if grouped[0] is arms[0] else arms[0]
     sort_i = next((i for i, s in enumerate(b) if isinstance(s, ast.Expr) and "textboxes.sort(" in unparse(s)), None)
     num_i = next((i for i, s in enumerate(b) if isinstance(s, ast.For) and "enumerate(textboxes" in unparse(s.iter) and any(isinstance(x, ast.Assign) and unparse(x.targets[0]).endswith(".index") for x in s.body)), None)
     if sort_i is not None and num_i is not None and num_i > sort_i:
@@ -146,13 +151,17 @@ def run(model: Model, rep: Report) -> None:
         r6.check(unparse(asg.value) == i_name and start0, site(an, lp), an.qualname, "flat path: after sorting, box k gets index k (from 0)", why=f"index assigned `{unparse(asg.value)}`")
     else:
         r6.violation(site(an, branch), an.qualname, "flat path (boxes_flow is None): boxes are sorted but never numbered", "every LTTextBox keeps index -1")
-    e = branch.orelse
+    e = grouped[0]
     flat_e = "".join(unparse(ast.Module(body=e, type_ignores=[])).split())
     r6.check("assigner=IndexAssigner()" in flat_e and "assigner.run(group)" in flat_e and "textboxes.sort(key=lambdabox:box.index)" in flat_e, site(an, e[0]) if e else site(an), an.qualname, "grouped path: IndexAssigner numbers the boxes in group order, then the boxes are sorted by that number", why="numbering on the grouped path changed")
     ia = model.func(L + "IndexAssigner.run")
     fi = "".join(unparse(ia.node).split())
     r6.check("obj.index=self.indexself.index+=1" in fi and "forxinobj:self.run(x)" in fi and unparse(model.func(L + "IndexAssigner.__init__").node).count("index: int=0") + unparse(model.func(L + "IndexAssigner.__init__").node).count("index: int = 0") >= 1, site(ia), ia.qualname, "IndexAssigner hands out consecutive numbers from 0 in traversal order", why="changed")
 
+    # ---------------------------------------------------------------- R10 (shared with C20)
+    from .c20 import plane_membership_rule
+
+    plane_membership_rule(model, rep, "C08-R10")
     # ---------------------------------------------------------------- R8
     r8 = rep.rule("C08-R8", "SIBLING", "the line-level emptiness test that sets lines aside implies the box-level test that drops boxes", 2)
     le = model.func(L + "LTTextLine.is_empty")
@@ -288,8 +297,89 @@ def _group_objects(model: Model, rep: Report) -> None:
             construct = f"start line={start}: [{' & '.join(conds)[:120]}]"
             r2.check(not problems, site(go, inner), go.qualname, construct, why="; ".join(problems))
     rep.analysed["group_objects_feasible_paths"] = npaths
+    _orientation(rep, go, inner, g, cur)
     # after the loop: a pending glyph gets a line; the last line is yielded
     after = go.node.body[go.node.body.index(loop) + 1 :]  # type: ignore[attr-defined]
     fa = "".join(unparse(ast.Module(body=after, type_ignores=[])).split())
     ok = fa.startswith("iflineisNone:line=LTTextLineHorizontal(laparams.word_margin)") and "line.add(obj0)" in fa and fa.endswith("yieldline")
     r2.check(ok, site(go, after[0]) if after else site(go), go.qualname, "after the loop: a pending last glyph gets its own line, and the current line is yielded", why="epilogue changed")
+
+
+def _ev(e: ast.AST, env: Dict[str, object]) -> Optional[bool]:
+    """Three-valued evaluation of a branch test of group_objects under (halign, valign, kind of the current line)."""
+    if isinstance(e, ast.Name) and e.id in env and isinstance(env[e.id], bool):
+        return env[e.id]  # type: ignore[return-value]
+    if isinstance(e, ast.UnaryOp) and isinstance(e.op, ast.Not):
+        v = _ev(e.operand, env)
+        return None if v is None else not v
+    if isinstance(e, ast.BoolOp):
+        vs = [_ev(v, env) for v in e.values]
+        if isinstance(e.op, ast.And):
+            return False if any(v is False for v in vs) else (None if any(v is None for v in vs) else True)
+        return True if any(v is True for v in vs) else (None if any(v is None for v in vs) else False)
+    if isinstance(e, ast.Compare) and len(e.ops) == 1 and isinstance(e.left, ast.Name) and e.left.id == "line" and isinstance(e.comparators[0], ast.Constant) and e.comparators[0].value is None:
+        if isinstance(e.ops[0], ast.Is):
+            return env["line"] == "NONE"
+        if isinstance(e.ops[0], ast.IsNot):
+            return env["line"] != "NONE"
+    if isinstance(e, ast.Name) and e.id == "line":
+        return env["line"] != "NONE"
+    if isinstance(e, ast.Call) and (dotted(e.func) or "") == "isinstance" and len(e.args) == 2 and isinstance(e.args[0], ast.Name) and e.args[0].id == "line":
+        names = [unparse(x) for x in (e.args[1].elts if isinstance(e.args[1], ast.Tuple) else [e.args[1]])]
+        kinds = set()
+        for nm in names:
+            kinds |= {"LTTextLineHorizontal": {"H"}, "LTTextLineVertical": {"V"}, "LTTextLine": {"H", "V"}}.get(nm, set())
+        return env["line"] in kinds
+    return None
+
+
+def _orientation(rep: Report, go: FuncInfo, inner: ast.If, g, cur: str) -> None:
+    """C08-R9: a glyph joins a horizontal line only when it is horizontally aligned with its predecessor, a vertical line
+    only when vertically aligned - for all 12 combinations of (halign, valign, kind of the current line)."""
+    r9 = rep.rule("C08-R9", "TYPESTATE", "group_objects: every line holds glyphs of one orientation - a glyph is added to (or starts) a horizontal line only under halign, a vertical line only under valign", 12)
+    for kind in ("NONE", "H", "V"):
+        for h in (False, True):
+            for v in (False, True):
+                env: Dict[str, object] = {"halign": h, "valign": v, "line": kind}
+                feas = []
+                for path in g.paths():
+                    if path[-1][0] != g.exit:
+                        continue
+                    ok = True
+                    unknown = False
+                    for (nid, lab) in path:
+                        n = g.nodes[nid]
+                        if n.kind == "test" and n.ast is not None:
+                            tv = _ev(n.ast, env)
+                            if tv is None:
+                                unknown = True
+                            elif tv != (lab == "true"):
+                                ok = False
+                                break
+                    if ok:
+                        feas.append((path, unknown))
+                problems: List[str] = []
+                if len(feas) != 1 or feas[0][1]:
+                    problems.append(f"{len(feas)} paths are possible (a branch test is not a function of halign, valign and the kind of the current line)")
+                for path, _ in feas:
+                    line = kind
+                    for (nid, lab) in path:
+                        a = g.nodes[nid].ast
+                        if a is None or g.nodes[nid].kind == "test":
+                            continue
+                        if isinstance(a, ast.Assign) and unparse(a.targets[0]) == "line":
+                            val = a.value
+                            if isinstance(val, ast.Constant) and val.value is None:
+                                line = "NONE"
+                            elif isinstance(val, ast.Call):
+                                line = {"LTTextLineHorizontal": "H", "LTTextLineVertical": "V"}.get(dotted(val.func) or "", "?")
+                            else:
+                                line = "?"
+                        elif unparse(a).replace(" ", "") == f"line.add({cur})":
+                            if line == "H" and not h:
+                                problems.append(f"`{cur}` joins a horizontal line although it is not horizontally aligned with its predecessor")
+                            elif line == "V" and not v:
+                                problems.append(f"`{cur}` joins a vertical line although it is not vertically aligned with its predecessor")
+                            elif line == "?":
+                                problems.append("line of unknown orientation")
+                r9.check(not problems, site(go, inner), go.qualname, f"halign={h}, valign={v}, current line={kind}", why="; ".join(problems))
